@@ -589,6 +589,9 @@ func (c *codegen) computeMutates() {
 							m = true
 						}
 					}
+					if c.spWritesRooted(x, rooted) { // code_opq.go
+						m = true
+					}
 					switch f := x.Fun.(type) {
 					case *ast.SelectorExpr:
 						if rooted(f.X) && c.mutates[fnKey{typeOfPath(f.X), f.Sel.Name}] {
